@@ -58,14 +58,17 @@ Lemma rep_no_dot ab v l : Rep ab v l -> ~ In [DOT] l.
 Proof. intros (_ & _ & N). now apply (normal_no_dot ab). Qed.
 
 (* push of a non-empty segment *)
-Lemma push_text ab fa v l seg : Rep ab v l -> (fa = true -> ab = true) -> seg <> [] -> noslash seg ->
-  push false fa v seg = render ab (l ++ [seg]).
+Definition ctx_ok (start0 fa ab : bool) : Prop := fa && negb start0 = true -> ab = true.
+Definition seg_ctx (start0 : bool) (seg : str) : Prop := start0 = true -> colon_first seg = false.
+Lemma push_text start0 ab fa v l seg : Rep ab v l -> ctx_ok start0 fa ab -> seg_ctx start0 seg -> seg <> [] -> noslash seg ->
+  push start0 fa v seg = render ab (l ++ [seg]).
 Proof.
-  intros (-> & C & N) Hfa Hs Hn. unfold push.
-  assert (Hp : (if fa && negb false && is_nil (render ab l) then [SLASH] else render ab l) = render ab l).
-  { rewrite (render_nil_iff ab l C). destruct fa; [rewrite (Hfa eq_refl)|]; reflexivity. }
-  rewrite Hp, (render_empty_iff ab l C). cbn [andb orb].
+  intros (-> & C & N) Hfa Hcol Hs Hn. unfold push.
+  assert (Hp : (if fa && negb start0 && is_nil (render ab l) then [SLASH] else render ab l) = render ab l).
+  { rewrite (render_nil_iff ab l C). destruct (fa && negb start0) eqn:E; [rewrite (Hfa E)|]; reflexivity. }
+  rewrite Hp, (render_empty_iff ab l C).
   assert (Hnil : is_nil seg = false) by (destruct seg; [contradiction | reflexivity]). rewrite Hnil.
+  assert (Hsc : start0 && colon_first seg = false) by (destruct start0; [rewrite (Hcol eq_refl)|]; reflexivity). rewrite Hsc. cbn [orb].
   destruct l as [|s0 l0] eqn:El; cbn [nil_segs andb].
   - unfold render. cbn [join app]. rewrite app_nil_r. reflexivity.
   - rewrite <- El in *. assert (Hl : l <> []) by (rewrite El; discriminate).
@@ -88,25 +91,26 @@ Proof. reflexivity. Qed.
 Lemma step_dotdot_cons ab x st : step ab (x :: st) DOTDOT = if is_dotdot x then DOTDOT :: x :: st else st.
 Proof. reflexivity. Qed.
 
-Lemma pop_rep ab fa v l : Rep ab v l -> (fa = true -> ab = true) -> pop_text false fa v = render ab (rev (step ab (rev l) DOTDOT)).
+Lemma dotdot_ctx start0 : seg_ctx start0 DOTDOT. Proof. intros _. reflexivity. Qed.
+Lemma pop_rep start0 ab fa v l : Rep ab v l -> ctx_ok start0 fa ab -> pop_text start0 fa v = render ab (rev (step ab (rev l) DOTDOT)).
 Proof.
   intros R Hfa. pose proof R as (Ev & C & N). unfold pop_text. subst v. rewrite (render_empty_iff ab l C).
   destruct (segs_render ab l C) as [Esg Eab]. rewrite Esg, Eab.
   destruct (last_case l) as [El|(l' & x & El)].
   - rewrite El in *. cbn [nil_segs rev]. rewrite step_dotdot_nil. destruct ab; [reflexivity|].
-    exact (push_text false fa (render false []) [] DOTDOT R Hfa (proj1 dotdot_seg) (proj2 dotdot_seg)).
+    exact (push_text start0 false fa (render false []) [] DOTDOT R Hfa (dotdot_ctx start0) (proj1 dotdot_seg) (proj2 dotdot_seg)).
   - assert (Hns : nil_segs l = false) by (rewrite El; destruct l'; reflexivity). rewrite Hns.
     assert (Er : rev l = x :: rev l') by (rewrite El, rev_app_distr; reflexivity). rewrite Er, step_dotdot_cons.
     unfold last_is_dotdot. rewrite Er. destruct (is_dotdot x).
     + rewrite <- Er. change (DOTDOT :: rev l) with ([DOTDOT] ++ rev l). rewrite rev_app_distr, rev_involutive. cbn [rev app].
-      exact (push_text ab fa (render ab l) l DOTDOT R Hfa (proj1 dotdot_seg) (proj2 dotdot_seg)).
+      exact (push_text start0 ab fa (render ab l) l DOTDOT R Hfa (dotdot_ctx start0) (proj1 dotdot_seg) (proj2 dotdot_seg)).
     + rewrite El, removelast_last, rev_involutive. reflexivity.
 Qed.
 
-Lemma sym1_rep ab fa v l seg : Rep ab v l -> (fa = true -> ab = true) -> nonempty_seg seg ->
-  Rep ab (fst (sym1 false fa v seg)) (rev (step ab (rev l) seg)) /\ snd (sym1 false fa v seg) = is_dot seg || is_dotdot seg.
+Lemma sym1_rep start0 ab fa v l seg : Rep ab v l -> ctx_ok start0 fa ab -> seg_ctx start0 seg -> nonempty_seg seg ->
+  Rep ab (fst (sym1 start0 fa v seg)) (rev (step ab (rev l) seg)) /\ snd (sym1 start0 fa v seg) = is_dot seg || is_dotdot seg.
 Proof.
-  intros R Hfa Hs. pose proof R as (Ev & C & N).
+  intros R Hfa Hcol Hs. pose proof R as (Ev & C & N).
   assert (N' : normal ab (rev (step ab (rev l) seg))) by (apply step_normal; rewrite rev_involutive; exact N).
   assert (C' : clean (rev (step ab (rev l) seg))) by (apply step_clean; [rewrite rev_involutive; exact C | exact Hs]).
   unfold sym1. destruct (is_dot seg) eqn:Ed.
@@ -116,10 +120,10 @@ Proof.
       assert (Eseg : seg = DOTDOT).
       { destruct seg as [|a [|b [|c0 r]]]; try discriminate. cbn [is_dotdot] in Edd. apply andb_true_iff in Edd as [E1 E2].
         apply is_true in E1, E2. subst. reflexivity. }
-      rewrite Eseg. exact (pop_rep ab fa v l R Hfa).
+      rewrite Eseg. exact (pop_rep start0 ab fa v l R Hfa).
     + assert (Hnil : is_nil seg = false) by (destruct seg; [exfalso; now apply (proj1 Hs) | reflexivity]). rewrite Hnil. cbn [negb orb fst snd].
       split; [|reflexivity]. split; [|split; [exact C' | exact N']].
-      unfold step. rewrite Ed, Edd. cbn [rev]. rewrite rev_involutive. exact (push_text ab fa v l seg R Hfa (proj1 Hs) (proj2 Hs)).
+      unfold step. rewrite Ed, Edd. cbn [rev]. rewrite rev_involutive. exact (push_text start0 ab fa v l seg R Hfa Hcol (proj1 Hs) (proj2 Hs)).
 Qed.
 
 Lemma last_is_dot_cons s rest : rest <> [] -> last_is_dot (s :: rest) = last_is_dot rest.
@@ -128,20 +132,20 @@ Proof.
   exfalso. apply H. rewrite <- (rev_involutive rest), E. reflexivity.
 Qed.
 
-Lemma fold_rep ab fa segs : Forall nonempty_seg segs -> forall v l open, Rep ab v l -> (fa = true -> ab = true) ->
-  Rep ab (fst (sym_fold1 false fa v open segs)) (rev (fold_left (step ab) segs (rev l))) /\
-  snd (sym_fold1 false fa v open segs) = match segs with [] => open | _ => last_is_dot segs end.
+Lemma fold_rep start0 ab fa segs : Forall (fun s => nonempty_seg s /\ seg_ctx start0 s) segs -> forall v l open, Rep ab v l -> ctx_ok start0 fa ab ->
+  Rep ab (fst (sym_fold1 start0 fa v open segs)) (rev (fold_left (step ab) segs (rev l))) /\
+  snd (sym_fold1 start0 fa v open segs) = match segs with [] => open | _ => last_is_dot segs end.
 Proof.
-  induction 1 as [|s rest Hs Hrest IH]; intros v l open R Hfa; cbn [sym_fold1 fold_left].
+  induction 1 as [|s rest [Hs Hcs] Hrest IH]; intros v l open R Hfa; cbn [sym_fold1 fold_left].
   - rewrite rev_involutive. split; [exact R | reflexivity].
-  - destruct (sym1_rep ab fa v l s R Hfa Hs) as [R1 O1]. destruct (sym1 false fa v s) as [v1 o1]. cbn [fst snd] in *.
+  - destruct (sym1_rep start0 ab fa v l s R Hfa Hcs Hs) as [R1 O1]. destruct (sym1 start0 fa v s) as [v1 o1]. cbn [fst snd] in *.
     destruct (IH v1 _ o1 R1 Hfa) as [R2 O2]. rewrite rev_involutive in R2. split; [exact R2|].
     rewrite O2. destruct rest as [|s2 r2]; [rewrite O1; unfold last_is_dot; reflexivity|].
     symmetry. apply last_is_dot_cons. discriminate.
 Qed.
 
 (* closing: the empty segment pushed after a final dot segment *)
-Lemma push_empty_text ab fa v l : Rep ab v l -> l <> [] -> push false fa v [] = render ab (l ++ [[]]).
+Lemma push_empty_text start0 ab fa v l : Rep ab v l -> l <> [] -> push start0 fa v [] = render ab (l ++ [[]]).
 Proof.
   intros (-> & C & N) Hl. unfold push. rewrite (render_nil_iff ab l C).
   assert (Hns : nil_segs l = false) by (destruct l; [contradiction | reflexivity]). rewrite Hns, !andb_false_r.
@@ -157,16 +161,17 @@ Lemma render_snoc_empty_nil ab : render ab [[]] = render ab [].
 Proof. reflexivity. Qed.
 
 Section Append.
-  Variables ab fa : bool. Variable v0 : str. Variables D L : list seg.
+  Variables start0 ab fa : bool. Variable v0 : str. Variables D L : list seg.
   Hypothesis R0 : Rep ab v0 (norm ab D).
-  Hypothesis Hfa : fa = true -> ab = true.
+  Hypothesis Hfa : ctx_ok start0 fa ab.
+  Local Notation seg_good := (fun s => nonempty_seg s /\ seg_ctx start0 s).
 
   (* every segment of the reference is non-empty *)
-  Theorem append_all_nonempty : L <> [] -> Forall nonempty_seg L ->
-    sym_append1 false fa v0 L = render ab (rds_segs ab (D ++ L)).
+  Theorem append_all_nonempty : L <> [] -> Forall seg_good L ->
+    sym_append1 start0 fa v0 L = render ab (rds_segs ab (D ++ L)).
   Proof.
-    intros HL HF. unfold sym_append1, close1, rds_segs. destruct (fold_rep ab fa L HF v0 _ false R0 Hfa) as [R1 O1].
-    rewrite <- norm_app in R1. destruct (sym_fold1 false fa v0 false L) as [v1 o1]. cbn [fst snd] in *.
+    intros HL HF. unfold sym_append1, close1, rds_segs. destruct (fold_rep start0 ab fa L HF v0 _ false R0 Hfa) as [R1 O1].
+    rewrite <- norm_app in R1. destruct (sym_fold1 start0 fa v0 false L) as [v1 o1]. cbn [fst snd] in *.
     assert (Eo : o1 = last_is_dot (D ++ L)).
     { rewrite O1. destruct L as [|s r] eqn:EL; [contradiction|]. rewrite <- EL.
       unfold last_is_dot. rewrite rev_app_distr. destruct (rev L) as [|y t] eqn:Er; [|reflexivity].
@@ -177,17 +182,17 @@ Section Append.
   Qed.
 
   (* ... or all but the last one, which is empty ("x/", "a/b/") *)
-  Theorem append_trailing_empty L' : L = L' ++ [[]] -> Forall nonempty_seg L' ->
-    sym_append1 false fa v0 L = render ab (rds_segs ab (D ++ L)).
+  Theorem append_trailing_empty L' : L = L' ++ [[]] -> Forall seg_good L' ->
+    sym_append1 start0 fa v0 L = render ab (rds_segs ab (D ++ L)).
   Proof.
     intros -> HF. unfold sym_append1, close1, rds_segs.
-    assert (Hfold : forall v o, sym_fold1 false fa v o (L' ++ [[]]) =
-              let '(v1, o1) := sym_fold1 false fa v o L' in sym1 false fa v1 []).
+    assert (Hfold : forall v o, sym_fold1 start0 fa v o (L' ++ [[]]) =
+              let '(v1, o1) := sym_fold1 start0 fa v o L' in sym1 start0 fa v1 []).
     { induction L' as [|s r IHr]; intros v o; cbn [app sym_fold1].
-      - destruct (sym1 false fa v []); reflexivity.
-      - destruct (sym1 false fa v s) as [v1 o1]. inversion HF; subst. now apply IHr. }
-    rewrite Hfold. destruct (fold_rep ab fa L' HF v0 _ false R0 Hfa) as [R1 _]. rewrite <- norm_app in R1.
-    destruct (sym_fold1 false fa v0 false L') as [v1 o1]. cbn [fst snd] in *.
+      - destruct (sym1 start0 fa v []); reflexivity.
+      - destruct (sym1 start0 fa v s) as [v1 o1]. inversion HF; subst. now apply IHr. }
+    rewrite Hfold. destruct (fold_rep start0 ab fa L' HF v0 _ false R0 Hfa) as [R1 _]. rewrite <- norm_app in R1.
+    destruct (sym_fold1 start0 fa v0 false L') as [v1 o1]. cbn [fst snd] in *.
     assert (Ed : last_is_dot (D ++ L' ++ [[]]) = false).
     { unfold last_is_dot. rewrite !rev_app_distr. reflexivity. }
     rewrite Ed. cbn [andb].
